@@ -61,7 +61,13 @@ Crash == /\ pc = "writing" /\ file = "prefix" /\ faults < MaxFaults
 Corrupt == /\ pc \in {"none", "ready"} /\ file = "intact" /\ faults < MaxFaults
            /\ \E f \in Faulty : file' = f /\ hist' = Append(hist, f)
            /\ faults' = faults + 1 /\ UNCHANGED <<pc, db, err>>
-Next == Begin \/ Exists \/ Scratch \/ Compile \/ WriteBegin \/ WriteEnd \/ Crash \/ Corrupt
+(* another tokenizer configuration (same patterns, other flags -- e.g. another library version)
+   uses the same cache directory: its database lives under another name (the cache key covers
+   expressions AND flags), so nothing this tokenizer reads changes *)
+Foreign == /\ pc \in {"none", "ready"} /\ faults < MaxFaults
+           /\ hist' = Append(hist, "foreign") /\ faults' = faults + 1
+           /\ UNCHANGED <<file, pc, db, err>>
+Next == Begin \/ Exists \/ Scratch \/ Compile \/ WriteBegin \/ WriteEnd \/ Crash \/ Corrupt \/ Foreign
 Spec == Init /\ [][Next]_vars
 
 (* C14, cache clause *)
